@@ -349,7 +349,7 @@ def _jobs(ctx, quick):
     tid = 0
     d = ctx.work
     # small files, every K: all formats (incl. the exact ones through real files / gzip)
-    small_formats = ["bed6", "bedgraph", "narrowpeak", "vcf", "vcfd", "sam", "gtf"]
+    small_formats = ["bed6", "bednum", "bedgraph", "narrowpeak", "vcf", "vcfd", "sam", "gtf"]
     for fmt in small_formats:
         for n in ((1, 2, 3) if quick else (1, 2, 3, 4)):
             for wsel in range(2 if quick else 3):
